@@ -10,15 +10,17 @@ SPECIAL = [0x00, 0x0a, 0x0d, 0x20, 0x22, 0x27, 0x3b, 0x5c, 0x7e, 0x7f, 0x80, 0xf
 N_SINGLE = 16
 N_LEN = 41
 TIERS = {
-    'quick': {'cases': N_SINGLE + N_LEN + len(SPECIAL) * 2 + 120, 'wall': 100, 'chunk': 4},
-    'thorough': {'cases': N_SINGLE + N_LEN + 512 + 4000, 'wall': 900, 'chunk': 8},
+    'quick': {'cases': N_SINGLE + N_LEN + len(SPECIAL) * 3 + 120, 'wall': 100, 'chunk': 4},
+    'thorough': {'cases': N_SINGLE + N_LEN + 512 + len(SPECIAL) + 4000, 'wall': 900, 'chunk': 8},
 }
 RULE = ('fixed jobs: each of the 256 byte values as a one-byte string, as a character literal (as an '
         'immediate and stored in a variable), and at the first/middle/last position of a longer string; '
         'ordered byte pairs (quick: every pair with one of 12 special bytes - NUL, LF, CR, space, both '
         'quotes, semicolon, backslash, ~, DEL, 0x80, 0xff - in either position; thorough: all 65536 '
         'pairs); constant int/byte/bool/string arrays of every length 0..40 as const global, mutable '
-        'global, const local and mutable local. seeded jobs: random strings up to 64 bytes and random '
+        'global, const local and mutable local; for each special byte, tables of 60 and 97 elements in which it sits '
+        'at every / every even / every odd position (byte, int, string forms: wherever a long data line is broken, '
+        'it is there). seeded jobs: random strings up to 64 bytes and random '
         'constant arrays, rendered with seeded literal spellings (raw, \\xHH, named escapes, \\u{..}, '
         'hex/octal/binary integers). Each program writes the constant, indexes every position and prints '
         '.length. oracle: the strict SVM assembler accepts the output; committed output equals the '
@@ -114,6 +116,35 @@ def arrays_prog(rnd, n, W):
     return prog(glob, dumps + [func('empty', '@is_you', [], *body)])
 
 
+def runs_prog(b):
+    """Long tables in which the special byte b sits at every position (and at every other position, in both
+    phases): wherever the emitter breaks or wraps a long .byte/.word/.ascii line, b is there."""
+    glob, body = [], []
+    dumps = [dump_func('byte'), ('func', 'empty', 'dump', ((arr('int', True), 'a'),), dump_func('int')[4])]
+    import random
+    r = random.Random(1000 + b)      # fixed: the job is the same under every VERIF_SEED
+    k = 0
+    for n in (60, 97, 131):
+        for pat in ('all', 'even', 'odd', 'mixed'):
+            vals = [b if (pat == 'all' or (pat == 'mixed' and r.random() < 0.5) or (i % 2 == 0) == (pat == 'even'))
+                    else r.choice((0x9c, 0x41, 7, 0x30)) for i in range(n)]
+            for form in ('cgb', 'mlb', 'cgi', 'str'):
+                if form == 'mlb' and not (pat == 'mixed' and n < 100):
+                    continue        # (mutable locals live on the 400-word stack)
+                k += 1
+                name = f'{form}{k}'
+                if form == 'str':
+                    body += [write(('str', ''.join(chr(v) for v in vals))), write(C('\n'))]
+                    continue
+                el = 'int' if form == 'cgi' else 'byte'
+                # irregular spelling widths (' ' / 32 / '\x9c'), so that no period lines up with a wrap width
+                items = tuple((C(v) if (el == 'byte' and r.random() < 0.7) else I(v)) for i, v in enumerate(vals))
+                d = decl(arr(el, form[0] == 'c'), name, ('arr', items), True)
+                (glob if form[1] == 'g' else body).append(d)
+                body += [ex(call('dump', V(name))), write(C('\n'))]
+    return prog(glob, dumps + [func('empty', '@is_you', [], *body)])
+
+
 def random_string_prog(rnd):
     body = []
     for _ in range(rnd.randrange(1, 6)):
@@ -147,6 +178,9 @@ def job(seed, idx, tier):
         else:
             fixed, first = idx3 // 2, bool(idx3 % 2)
         return f'pairs fixed={fixed} first={first}', pair_prog(fixed, first), W, rnd
+    idx4 = idx3 - npairs
+    if idx4 < len(SPECIAL):
+        return f'runs byte={SPECIAL[idx4]:#x}', runs_prog(SPECIAL[idx4]), W, rnd
     if rnd.random() < 0.3:
         return 'random arrays', arrays_prog(rnd, rnd.randrange(0, 12), W), W, rnd
     return 'random strings', random_string_prog(rnd), W, rnd
